@@ -238,6 +238,87 @@ let run_case () =
   Buffer.add_string b "]" end);
   print_string "R"; print_endline (Buffer.contents b)
 
+(* ---------- concurrent cases (Cache/Conc.v), coarse schedules: j whole commits, the reader up to
+   its database fetch, m whole commits, the rest of the reader, the remaining commits.
+   conc <info|-> <ndb> {k v} <preload 0|1> <nread> {k} <ncops> {cop} <key> <j> <m> <nuni> {k}
+   cop: D | T | N <info> <ns> {k v} | G <info> <ns> {k v}
+   prints one line per variant:  O ...  (ordering of the unchanged tree)   F ... (repaired ordering) *)
+let run_conc () =
+  let basic_info = parse_info (next ()) in
+  let ndb = next_int () in
+  let dbl = List.init ndb (fun _ -> let k = next_n () in let v = next_n () in (k, v)) in
+  let dbs k = match List.find_opt (fun (k', _) -> n_compare k k' = 0) dbl with Some (_, v) -> v | None -> N0 in
+  let d = { db_basic = (fun _ -> basic_info); db_storage = (fun _ k -> dbs k); db_code = (fun _ -> N0) } in
+  let basic = load_pair d N0 in
+  let preload = next () = "1" in
+  let nread = next_int () in
+  let prereads = List.init nread (fun _ -> next_n ()) in
+  let ncops = next_int () in
+  let slots () = let ns = next_int () in List.init ns (fun _ -> let k = next_n () in let v = next_n () in (k, v)) in
+  let cops = List.init ncops (fun _ ->
+    match next () with
+    | "D" -> CDestroy
+    | "T" -> CTouchEmpty
+    | "N" -> let i = some_info (next ()) in let sl = slots () in CCreate (i, sl)
+    | "G" -> let i = some_info (next ()) in let sl = slots () in CChange (i, sl)
+    | x -> failwith ("cop: " ^ x)) in
+  let key = next_n () in
+  let j = next_int () in
+  let m = next_int () in
+  let nuni = next_int () in
+  let uni = List.init nuni (fun _ -> next_n ()) in
+  let one vt tag =
+    (* the readers: pre-reads (sequential, before anything else), then the gated reader (last) *)
+    let keys = prereads @ [key] in
+    let s = ref (init None fempty cops keys) in
+    let st w = s := step vt basic dbs !s w in
+    let rec nat_of_int n = if n <= 0 then O else S (nat_of_int (n - 1)) in
+    let reader_done i = match List.nth (c_readers !s) i with RDone _ -> true | _ -> false in
+    let run_reader_fully i = let g = ref 0 in while not (reader_done i) && !g < 10 do st (WReader (nat_of_int i)); incr g done in
+    (* the account is loaded before the pre-reads, or after them (reads of an uncached account) *)
+    if preload then st WLoad;
+    List.iteri (fun i _ -> run_reader_fully i) prereads;
+    if not preload then st WLoad;
+    let commit_one () =
+      let target = List.length (c_pending !s) - 1 in
+      let g = ref 0 in
+      while (List.length (c_pending !s) > target || (match c_pc !s with CIdle -> false | CIns [] -> false | _ -> true)) && !g < 50 do
+        st WCommit; incr g done in
+    for _ = 1 to j do commit_one () done;
+    let ri = List.length prereads in
+    (* the gated reader runs until it has fetched from the database (or is done without a fetch) *)
+    let at_fetch () = match List.nth (c_readers !s) ri with
+      | RFetched _ -> true | RDone _ -> true
+      | RChecked (_, kn) -> false | _ -> false in
+    let fetched_from_db = ref false in
+    let g = ref 0 in
+    while not (at_fetch ()) && !g < 10 do
+      (match List.nth (c_readers !s) ri with RChecked (_, false) -> fetched_from_db := true | _ -> ());
+      st (WReader (nat_of_int ri)); incr g done;
+    (* commits that happen while the database call is in flight - only if there was one *)
+    if !fetched_from_db then for _ = 1 to m do commit_one () done;
+    run_reader_fully ri;
+    let g = ref 0 in
+    while c_pending !s <> [] && !g < 20 do commit_one (); incr g done;
+    commit_one ();
+    let b = Buffer.create 128 in
+    Buffer.add_string b tag;
+    (match List.nth (c_readers !s) ri with
+     | RDone (_, v) -> Buffer.add_string b (" ret=" ^ hex_of_n v)
+     | _ -> Buffer.add_string b " ret=?");
+    Buffer.add_string b (" gated=" ^ (if !fetched_from_db then "1" else "0"));
+    (match c_acct !s with
+     | Some (i, stt) -> Buffer.add_string b (" acct=" ^ info_s i ^ "/" ^ status_s stt)
+     | None -> Buffer.add_string b " acct=~");
+    List.iter (fun k ->
+      Buffer.add_string b (" " ^ hex_of_n k ^ "=" ^
+        (match c_slots !s k with Some v -> hex_of_n v | None -> "~") ^ ":" ^
+        hex_of_n (answer dbs (c_acct !s) (c_slots !s) k) ^ ":" ^
+        hex_of_n (answer dbs (c_acct !s) (c_ghost !s) k))) uni;
+    print_endline (Buffer.contents b) in
+  one original "O";
+  one repaired "F"
+
 let () =
   try
     while true do
@@ -249,6 +330,11 @@ let () =
           (try run_case () with e ->
              print_endline ("P DRIVER-ERROR " ^ Printexc.to_string e);
              print_endline ("R DRIVER-ERROR " ^ Printexc.to_string e))
+      | "conc" :: rest ->
+          toks := Array.of_list rest; pos := 0;
+          (try run_conc () with e ->
+             print_endline ("O DRIVER-ERROR " ^ Printexc.to_string e);
+             print_endline ("F DRIVER-ERROR " ^ Printexc.to_string e))
       | _ -> print_endline "P ?"; print_endline "R ?"
     done
   with End_of_file -> ()
